@@ -3,6 +3,7 @@ from .. import terms as T, alg, sq
 from ..harness import (Crate, State, Ref, ArrV, Struct, EnumV, flat_leaves, Anchor, Unsupported, SymbolicLoop, Diverged, symbolic_args)
 from .linear import Gen
 from .c16 import writers_of_field, field_index
+from .jroles import roles as jitter_roles, find_field
 
 RULE = ("(R0) who-writes(JitterRng.data) is exactly the frozen set; for each writer the new pool value, value-numbered with constant loops "
         "unrolled, must be GF(2)-affine in the old pool value with a 64x64 matrix of rank 64 for every fixed value of the other inputs "
@@ -43,13 +44,17 @@ def run(chk, tier):
     crate = Crate("rand_jitter")
     chk.config(crate.config)
     g = Gen(crate, "JitterRng")
-    iD = field_index(g.adt, "data")
+    iD = find_field(g.adt, "data", "u64")
+    R = jitter_roles(crate)
+    global WRITERS
+    WRITERS = {"rand_jitter::JitterRng::<F>::new_with_timer", "<rand_jitter::JitterRng<F> as core::clone::Clone>::clone",
+               R["lfsr_time"], R["measure_jitter"], R["stir_pool"], "<rand_jitter::JitterRng<F> as rand_core::RngCore>::next_u32"}
     ws = writers_of_field(crate, g.path, iD)
     # no writer outside the analysed set (a listed function that no longer writes the pool is not a problem)
     chk.ob("R0", "JitterRng.data|writers", ws <= WRITERS and len(ws) >= 3, "writers: %s" % sorted(x.split("::")[-1] for x in ws),
            sample={"field": "data", "writers": sorted(ws)})
     # ---- R1: the LFSR fold
-    lk = next((k for k, b in crate.bodies.items() if b["def"].endswith("lfsr_time::lfsr")), None)
+    lk = next((k for k, b in crate.bodies.items() if b["def"] == R["lfsr"]), None)
     if lk is None:
         raise Anchor("lfsr not found")
     chk.body(lk)
@@ -95,7 +100,7 @@ def run(chk, tier):
             chk.ob("R2", "%s|pool update" % short, False, "not established: %s" % e, where=body["span"][0])
             continue
         post = st.objs[args[0].obj].fields[iD]
-        rule = {"lfsr_time": "R1", "measure_jitter": "R2", "stir_pool": "R3", "next_u32": "R0"}[short]
+        rule = {R["lfsr_time"]: "R1", R["measure_jitter"]: "R2", R["stir_pool"]: "R3"}.get(d, "R0")
         check_bijective(chk, rule, short, pre, post, body["span"][0], ev, st, (args[0].obj, ("f", iD)))
     chk.trusted_base = TRUSTED
 
